@@ -104,6 +104,18 @@ pub fn vals(n: usize, salt: usize, variant: u64) -> Vec<f64> {
     if variant == 4 {
         return vec![0.0; n];
     }
+    // variants 5 and 6: the generic progression scaled down so that products of two operands are
+    // (5) far below machine epsilon in absolute terms, (6) subnormal: magnitude thresholds
+    // ("skip terms smaller than ...") would show. Not meaningful under f32 for variant 6.
+    if variant == 5 || variant == 6 {
+        let scale = match (variant, salt % 2) {
+            (5, 0) => 1.0e-8,
+            (5, _) => 1.0e-9,
+            (_, 0) => 1.0e-155,
+            (_, _) => 1.0e-154,
+        };
+        return vals(n, salt, 0).into_iter().map(|v| v * scale).collect();
+    }
     let s = salt % 6;
     (0..n)
         .map(|i| {
